@@ -50,7 +50,7 @@ type EngineCfg struct {
 	// generated scenarios: everything needed to rebuild the script for a replay
 	GenSeed string // decimal uint64
 	GenMode string
-	OvKey   []int  // run, node, visit, k  (override position, empty: none)
+	OvKey   []int // run, node, visit, k  (override position, empty: none)
 	OvPhase string
 	OvKind  string // "err" | "cancel"
 }
@@ -289,24 +289,24 @@ func (c *manualDeadlineCtx) expire() {
 // ---------------------------------------------------------------------------
 
 type scnRun struct {
-	cfg    EngineCfg
-	reg    *Registry
-	script Script
-	events []Event
-	store  *flyt.SharedStore
-	tok    int
-	run    int
-	visits map[int]int // per run: node -> visits so far
-	att    map[int]int // node -> attempts in current visit
-	cancel func()
-	nodes  map[int]flyt.Node
-	nCb    int
-	maxCb  int
-	over   bool
+	cfg      EngineCfg
+	reg      *Registry
+	script   Script
+	events   []Event
+	store    *flyt.SharedStore
+	tok      int
+	run      int
+	visits   map[int]int // per run: node -> visits so far
+	att      map[int]int // node -> attempts in current visit
+	cancel   func()
+	nodes    map[int]flyt.Node
+	nCb      int
+	maxCb    int
+	over     bool
 	visitLog bool // append node ids to a list in the store (C10 differential)
 }
 
-func (s *scnRun) log(e Event) { s.events = append(s.events, e) }
+func (s *scnRun) log(e Event)  { s.events = append(s.events, e) }
 func (s *scnRun) nextTok() int { t := s.tok; s.tok++; return t }
 
 // guard against runaway executions (only reachable when the library misroutes):
